@@ -4,6 +4,8 @@ import (
 	"fmt"
 	"go/constant"
 	"go/types"
+	"os"
+	"runtime/debug"
 	"strings"
 
 	"golang.org/x/tools/go/ssa"
@@ -102,6 +104,9 @@ func NewGen(w *World, fnName string) *Gen {
 type unsupported struct{ msg string }
 
 func (g *Gen) fail(f string, a ...any) {
+	if os.Getenv("GOWP_FAIL_STACK") != "" {
+		debug.PrintStack()
+	}
 	panic(unsupported{fmt.Sprintf(f, a...)})
 }
 
